@@ -43,7 +43,8 @@ fn run_bin(bin: &str, query: &str, mode: &str, input: &[u8]) -> Option<(Vec<u8>,
 
 /// queries that route data through every unordered container of the implementation
 fn query(r: &mut Rng) -> (String, &'static str) {
-    match r.below(14) {
+    match r.below(16) {
+        13 | 14 => ((*r.pick(&["* | json", "* | json | sort by n", "* | json | sort by n desc | limit 3", "* | json | fields except n", "* | json | count by n | sort by n"])).to_string(), "near-equal-field-names"),
         0 => ("* | json".into(), "nested-object-key-order"),
         1 => ("* | json | fields o, m, k".into(), "nested-object-key-order"),
         2 => (format!("* | json | {} | where _count > 0", "count by k"), "agg-then-row-operator"),
@@ -85,7 +86,26 @@ pub fn check(ctx: &mut Ctx) {
             // 64-bit ids above 2^53 that are neighbours as integers but the same double
             input = (0..rows).map(|i| format!("{{\"big\":{},\"n\":{}}}\n", 1152921504606846976i64 + (i as i64 % 7), i % 3)).collect::<String>().into_bytes();
         }
+        if family == "near-equal-field-names" {
+            // sibling field names that a lossy sort key would tie (case, blanks, leading zeros,
+            // accents), so that any order left to a hash map shows between runs; later rows bring
+            // names the earlier ones did not have
+            let names = ["Status", "status", "STATUS", "Host", "host", "a", "A", "a ", " a", "1", "01", "001", "é", "e", "E", "n_", "N", "ß", "ss", "SS"];
+            input = (0..rows)
+                .map(|i| {
+                    let mut m: Vec<String> = vec![format!("\"n\":{}", i % 4)];
+                    for (j, nm) in names.iter().enumerate() {
+                        if (i + j) % 3 != 0 || i == 0 && j < 6 {
+                            m.push(format!("\"{}\":\"v{}\"", nm, j));
+                        }
+                    }
+                    format!("{{{}}}\n", m.join(","))
+                })
+                .collect::<String>()
+                .into_bytes();
+        }
         let mode = *r.pick(&["json", "json", "logfmt", "legacy"]);
+        let mode = if family == "near-equal-field-names" { *r.pick(&["legacy", "legacy", "json"]) } else { mode };
         let key = ckey(&q, &input);
         let info = serde_json::json!({"query": q, "mode": mode, "input": String::from_utf8_lossy(&input)});
         if q.contains("now(") {
